@@ -1,6 +1,6 @@
 (* Properties_C01.v — obligations of property C01 (basic tuning fields always equal the last
    error-free reception). *)
-Require Import ObsRun Lemmas_Tuning Lemmas_Leaf.
+Require Import ObsRun Lemmas_Tuning Lemmas_Leaf_C01.
 Local Open Scope Z_scope.
 
 (* For EVERY history h of API calls with well-formed arguments (16-bit blocks, error codes 0..255,
